@@ -1,6 +1,8 @@
 use crate::common::{Acc, Ctx, Report};
 
 pub mod c05;
+pub mod c06;
+pub mod c11;
 pub mod c20;
 
 pub type Runner = fn(&Ctx) -> (Acc, Report);
@@ -8,6 +10,8 @@ pub type Runner = fn(&Ctx) -> (Acc, Report);
 pub fn lookup(id: &str) -> Option<(&'static str, Runner)> {
     Some(match id {
         "C05" => ("C05", c05::run as Runner),
+        "C06" => ("C06", c06::run as Runner),
+        "C11" => ("C11", c11::run as Runner),
         "C20" => ("C20", c20::run as Runner),
         _ => return None,
     })
